@@ -246,6 +246,13 @@ class SessionWorld:
         self.nreq = 0
         self.failed = []        # requests on which Sessions.request raised
 
+    def who_of(self, ip, agent):
+        """The fingerprint suffix as an attacker computes it for its own address and
+        agent: the algorithm is public, so it is the code's own who() on a plain request."""
+        from circuits.web.sessions import who
+        req, _ = make_request([('Host', 'example.com'), ('User-Agent', R.AGENTS[agent])], ip=R.IPS[ip])
+        return who(req)
+
     def cookie_value(self, ip, agent, ck):
         """ck: ["none"] | ["issued", j] | ["garbage"] | ["selfmade"] | ["transplant", k]"""
         kind = ck[0]
@@ -256,9 +263,9 @@ class SessionWorld:
         if kind == 'garbage':
             return '5e1fc0ffee5e1fc0ffee5e1fc0ffee00'
         if kind == 'selfmade':
-            return '5e1fc0ffee5e1fc0ffee5e1fc0ffee00/' + R.who_of(ip, agent)
+            return '5e1fc0ffee5e1fc0ffee5e1fc0ffee00/' + self.who_of(ip, agent)
         if kind == 'transplant':
-            return self.sids[ck[1] - 1].split('/', 1)[0] + '/' + R.who_of(ip, agent)
+            return self.sids[ck[1] - 1].split('/', 1)[0] + '/' + self.who_of(ip, agent)
         raise ValueError(ck)
 
     def request(self, ip, agent, ck, op, xh=('none', 'none')):
